@@ -1,14 +1,14 @@
 use proc_macro2::TokenStream;
 use quote::quote;
-use syn::{Error, FnArg, Pat};
+use syn::Error;
 
 use super::{
     types::{ArgInfo, MethodAttrs},
-    utils::{convert_to_single_lifetime, snake_case_to_pascal_case, type_contains_lifetime},
+    utils::{generate_params_fields, parse_method_arguments, snake_case_to_pascal_case},
 };
 
 pub(super) fn generate_chain_method(
-    method: &mut syn::TraitItemFn,
+    method: &syn::TraitItemFn,
     interface_name: &str,
     _trait_generics: &syn::Generics,
     method_attrs: &MethodAttrs,
@@ -93,6 +93,11 @@ pub(super) fn generate_chain_method(
         crate_path,
     );
 
+    // A streaming method asks for more replies in a chain too.
+    let set_more = method_attrs
+        .is_streaming
+        .then(|| quote! { let call = call.set_more(true); });
+
     // Generate the implementation method
     let impl_method = quote! {
         fn #chain_method_name<#all_generics>(
@@ -104,52 +109,12 @@ pub(super) fn generate_chain_method(
         #chain_where
         {
             #method_call_creation
+            #set_more
             self.chain_call(&call)
         }
     };
 
     Ok((trait_method, impl_method))
-}
-
-fn parse_method_arguments<'a>(
-    method: &'a mut syn::TraitItemFn,
-    has_explicit_lifetimes: bool,
-) -> Result<Vec<ArgInfo<'a>>, Error> {
-    method
-        .sig
-        .inputs
-        .iter_mut()
-        .skip(1)
-        .filter_map(|arg| {
-            let FnArg::Typed(pat_type) = arg else {
-                return None;
-            };
-            let Pat::Ident(pat_ident) = &*pat_type.pat else {
-                return None;
-            };
-
-            let name = &pat_ident.ident;
-            let ty = &pat_type.ty;
-
-            // Only convert to single lifetime if there are no explicit lifetimes
-            let ty_for_params = if has_explicit_lifetimes {
-                (**ty).clone()
-            } else {
-                convert_to_single_lifetime(ty)
-            };
-
-            // Check if this argument has lifetimes
-            let has_lifetime = type_contains_lifetime(&ty_for_params);
-
-            Some(Ok(ArgInfo {
-                name,
-                ty_for_params,
-                has_lifetime,
-                is_optional: false,
-                serialized_name: None,
-            }))
-        })
-        .collect()
 }
 
 fn build_chain_where_clause(method_where_clause: &Option<syn::WhereClause>) -> syn::WhereClause {
@@ -187,14 +152,7 @@ fn generate_method_call_creation(
     crate_path: &TokenStream,
 ) -> TokenStream {
     if !arg_names.is_empty() {
-        let param_fields: Vec<_> = arg_infos
-            .iter()
-            .map(|info| {
-                let name = info.name;
-                let ty = &info.ty_for_params;
-                quote! { pub #name: #ty }
-            })
-            .collect();
+        let param_fields = generate_params_fields(arg_infos);
 
         // Build generics for the structs - combine method generics and lifetime params
         let struct_generics = build_struct_generics(
